@@ -26,7 +26,7 @@ every check), and a configuration on which the interpreter itself panics.
 What is proved instead, for EVERY structured configuration (all keys, all values, any number of
 entries — no bound):
 
-* `accept_safe_partial`: an accepted configuration satisfies `RunSafe` unless one of eleven named,
+* `accept_safe_partial`: an accepted configuration satisfies `RunSafe` unless one of twelve named,
   decidable, purely syntactic finding predicates holds of it (plus the platform exclusion
   `ExcelOutput`); a finding whose repair is declared needs no exclusion (`repaired_*`: with the
   repair such a configuration is rejected with an error value, or its site is guarded).  The predicates are evaluated by the Lean driver on the structured form of every
@@ -36,6 +36,9 @@ entries — no bound):
   `config:unexplained-crash`.
 * `finding_unsafe_*`: conversely each finding, on an accepted configuration, really breaks a
   precondition: none of the exclusions is vacuous or too wide.  Together: `accept_safe_iff`.
+* `repaired_findings_rejected`, `repaired_names_on_accepted`: with its repair declared a finding no longer holds of
+  any accepted configuration (or, for the two guarded sites, is harmless); the driver still lists such findings
+  (`fixed=`) so that a crash at a repaired site is reported under the finding's own signature.
 * `reject_is_error_partial`: unless the data source is a readable non-data-set, loader and
   interpreter return `accepted` or ONE error value with a non-empty list of classes; `load_total`.
 
@@ -119,7 +122,7 @@ instance (r : Repairs) (env : Env) (l : Loaded) : Decidable (RunSafe r env l) :=
 /-- **accept_safe_partial.**  For every structured configuration that loader and interpreter
 accept, every precondition of `RunSafe` holds, provided none of the named findings holds of it;
 a finding whose repair is declared to be in the tree needs no exclusion.
-(The full statement `accept_safe`, without the twelve finding/platform hypotheses, is refuted below.) -/
+(The full statement `accept_safe`, without the thirteen finding/platform hypotheses, is refuted below.) -/
 theorem accept_safe_partial (r : Repairs) (env : Env) (c : Cfg) (l : Loaded)
     (hload : load r c = .ok l) (hinterp : interpret r l = [])
     (h1 : r.reportEveryChecked = true ∨ ReportingModuloZero c = false)
@@ -132,7 +135,8 @@ theorem accept_safe_partial (r : Repairs) (env : Env) (c : Cfg) (l : Loaded)
     (h9 : r.outputPathChecked = true ∨ OutputPathNotADirectory c = false)
     (h10 : r.runNumberBounded = true ∨ RunNumberOutOfRange c = false)
     (h11 : r.concurrencyCapped = true ∨ ConcurrencyOutOfRange c = false)
-    (h12 : CpuProfilePathNotCreatable c = false)
+    (h12 : r.cpuProfilePathChecked = true ∨ CpuProfilePathNotCreatable c = false)
+    (h12d : CpuProfilePathIsDirectory c = false)
     (hplatform : ExcelOutput c = false) :
     RunSafe r env l := by
   obtain ⟨rfl, he⟩ := load_ok hload
@@ -147,22 +151,22 @@ theorem accept_safe_partial (r : Repairs) (env : Env) (c : Cfg) (l : Loaded)
     outputPath := site_outputPath (h9.elim (fun hr => repaired_outputPath hr hs) id)
     runNumber := site_runNumber (h10.elim (fun hr => repaired_runNumber hr he) id)
     concurrency := h11.elim .inl (fun h => .inr (site_concurrency h))
-    cpuProfile := site_cpuProfile h12
+    cpuProfile := site_cpuProfile (h12.elim (fun hr => repaired_cpuProfile hr hs) id) h12d
     platform := site_platform hplatform }
 
 /-- the same, with the findings as the list the driver prints -/
 theorem accept_safe_of_no_finding (r : Repairs) (env : Env) (c : Cfg) (l : Loaded)
     (hload : load r c = .ok l) (hinterp : interpret r l = []) (hnone : findingNames r env c = []) :
     RunSafe r env l := by
-  unfold findingNames at hnone
-  simp only [List.append_eq_nil_iff] at hnone
-  obtain ⟨⟨⟨⟨⟨⟨⟨⟨⟨⟨⟨h1, h2⟩, h3⟩, h4⟩, h5⟩, h6⟩, h7⟩, h9⟩, h10⟩, h11⟩, h12⟩, h13⟩ := hnone
   have f : ∀ {b : Bool} {n : String}, (if b = true then [n] else []) = [] → b = false := by
     intro b n h; cases b <;> simp_all
   have g : ∀ {a b : Bool} {n : String}, (if (!a && b) = true then [n] else []) = [] → a = true ∨ b = false := by
     intro a b n h; cases a <;> cases b <;> simp_all
+  unfold findingNames at hnone
+  simp only [List.append_eq_nil_iff] at hnone
+  obtain ⟨⟨⟨⟨⟨⟨⟨⟨⟨⟨⟨⟨h1, h2⟩, h3⟩, h4⟩, h5⟩, h6⟩, h7⟩, h9⟩, h10⟩, h11⟩, h12⟩, h12d⟩, h13⟩ := hnone
   exact accept_safe_partial r env c l hload hinterp (g h1) (g h2) (f h3) (g h4) (f h5) (f h6) (f h7)
-    (g h9) (g h10) (g h11) (f h12) (f h13)
+    (g h9) (g h10) (g h11) (g h12) (f h12d) (f h13)
 
 /-! ## rejected ⇒ an error value -/
 
@@ -228,11 +232,13 @@ theorem finding_unsafe (r : Repairs) (env : Env) (c : Cfg) (l : Loaded)
   · simp only [Bool.and_eq_true, Bool.not_eq_true'] at h10; exact unsafe_runNumber r env h10.2
   rcases Bool.eq_false_or_eq_true (!r.concurrencyCapped && ConcurrencyOutOfRange c) with h11 | h11
   · simp only [Bool.and_eq_true, Bool.not_eq_true'] at h11; exact unsafe_concurrency r env h11.1 h11.2
-  rcases Bool.eq_false_or_eq_true (CpuProfilePathNotCreatable c) with h12 | h12
-  · exact unsafe_cpuProfile r env h12
+  rcases Bool.eq_false_or_eq_true (!r.cpuProfilePathChecked && CpuProfilePathNotCreatable c) with h12 | h12
+  · simp only [Bool.and_eq_true, Bool.not_eq_true'] at h12; exact unsafe_cpuProfile r env h12.2
+  rcases Bool.eq_false_or_eq_true (CpuProfilePathIsDirectory c) with h12d | h12d
+  · exact unsafe_cpuProfileDir r env h12d
   rcases Bool.eq_false_or_eq_true (ExcelOutput c) with h13 | h13
   · exact unsafe_excel r env h13
-  exact absurd (by simp [findingNames, h1, h2, h3, h4, h5, h6, h7, h9, h10, h11, h12, h13]) hsome
+  exact absurd (by simp [findingNames, h1, h2, h3, h4, h5, h6, h7, h9, h10, h11, h12, h12d, h13]) hsome
 
 /-- **accept_safe_iff.**  For an accepted configuration, `RunSafe` holds exactly when the driver's
 list of findings is empty. -/
@@ -247,17 +253,43 @@ theorem accept_safe_iff (r : Repairs) (env : Env) (c : Cfg) (l : Loaded)
   · exact accept_safe_of_no_finding r env c l hload hinterp
 
 /-- with its repair declared, a configuration with the finding is no longer accepted
-(D16, D17, run-number bound, output-path check) -/
+(D16, D17, run-number bound, output-path check, CPU-profile directory check) -/
 theorem repaired_findings_rejected (r : Repairs) (c : Cfg) (l : Loaded)
     (hload : load r c = .ok l) (hinterp : interpret r l = []) :
     (r.reportEveryChecked = true → ReportingModuloZero c = false) ∧
     (r.objectiveChecked = true → ObjectiveNotOffered c = false) ∧
     (r.runNumberBounded = true → RunNumberOutOfRange c = false) ∧
-    (r.outputPathChecked = true → OutputPathNotADirectory c = false) := by
+    (r.outputPathChecked = true → OutputPathNotADirectory c = false) ∧
+    (r.cpuProfilePathChecked = true → CpuProfilePathNotCreatable c = false) := by
   obtain ⟨rfl, he⟩ := load_ok hload
   obtain ⟨hm, ha, ho, hs⟩ := interpret_nil hinterp
   exact ⟨fun hr => repaired_modulo hr he, fun hr => repaired_objective hr hm ha ho,
-    fun hr => repaired_runNumber hr he, fun hr => repaired_outputPath hr hs⟩
+    fun hr => repaired_runNumber hr he, fun hr => repaired_outputPath hr hs, fun hr => repaired_cpuProfile hr hs⟩
+
+/-- what the driver prints as `fixed=` (findings that hold syntactically although their repair is declared):
+on an accepted configuration these can only be the two whose repair guards the failure site instead of
+rejecting the configuration - a crash attributed to any other of them shows that the declared repair is
+not in the tree -/
+theorem repaired_names_on_accepted (r : Repairs) (c : Cfg) (l : Loaded)
+    (hload : load r c = .ok l) (hinterp : interpret r l = []) :
+    ∀ n ∈ repairedNames r c, n = "LoopInvariantWithMultiObjective" ∨ n = "ConcurrencyOutOfRange" := by
+  obtain ⟨h1, h2, h3, h4, h5⟩ := repaired_findings_rejected r c l hload hinterp
+  intro n hn
+  unfold repairedNames at hn
+  simp only [List.mem_append] at hn
+  have f : ∀ {a b : Bool} {m : String}, (a = true → b = false) → n ∈ (if (a && b) = true then [m] else []) → False := by
+    intro a b m hab hm
+    cases a <;> cases b <;> simp_all
+  rcases hn with (((((hn | hn) | hn) | hn) | hn) | hn) | hn
+  · exact (f h1 hn).elim
+  · exact (f h2 hn).elim
+  · left
+    cases hb : (r.loopInvariantGuarded && LoopInvariantWithMultiObjective c) <;> simp_all
+  · exact (f h4 hn).elim
+  · exact (f h3 hn).elim
+  · right
+    cases hb : (r.concurrencyCapped && ConcurrencyOutOfRange c) <;> simp_all
+  · exact (f h5 hn).elim
 
 /-! ## non-vacuity, and the refutation of the full statements at concrete witnesses
 
@@ -272,7 +304,9 @@ def wBase : Cfg :=
 /-- today's tree: no repair declared -/
 def r0 : Repairs := {}
 /-- every proposed repair declared -/
-def rAll : Repairs := ⟨true, true, true, true, true, true⟩
+def rAll : Repairs := ⟨true, true, true, true, true, true, true⟩
+/-- the repairs that are in crem today (the `repairs=` argument in checkprops.py) -/
+def rTree : Repairs := { rAll with objectiveChecked := false }
 
 /-- data facts used by the witnesses: on data set `valid` every limit up to 1.0 binds, none from 2000.0 does -/
 def wEnv : Env := { zones := [("valid", List.replicate 6 ⟨1000, 2000000⟩)] }
@@ -347,7 +381,7 @@ def wJson : Cfg := ⟨.scenario, "OutputType", .str "JSON"⟩ :: wSuppa
 example : accepts r0 wJson = true ∧ RunSafe r0 wEnv (mkLoaded wJson) ∧ findingNames r0 wEnv wJson = [] := by decide
 
 /-- new  `OutputPath` = an existing regular file; a negative `RunNumber`; `MaximumConcurrentRunNumber = -1`
-(as in crem's RichValidConfig.toml); `CpuProfilePath` in a missing directory -/
+(as in crem's RichValidConfig.toml); `CpuProfilePath` in a missing directory; `CpuProfilePath` naming a directory -/
 example : let w := ⟨.scenario, "OutputPath", .path "file"⟩ :: wBase
     accepts r0 w = true ∧ ¬ RunSafe r0 wEnv (mkLoaded w) ∧ findingNames r0 wEnv w = ["OutputPathNotADirectory"] := by decide
 example : let w := ⟨.scenario, "RunNumber", .int (-1)⟩ :: wBase
@@ -356,6 +390,11 @@ example : let w := ⟨.scenario, "MaximumConcurrentRunNumber", .int (-1)⟩ :: w
     accepts r0 w = true ∧ ¬ RunSafe r0 wEnv (mkLoaded w) ∧ findingNames r0 wEnv w = ["ConcurrencyOutOfRange"] := by decide
 example : let w := ⟨.scenario, "CpuProfilePath", .path "noprofdir"⟩ :: wBase
     accepts r0 w = true ∧ ¬ RunSafe r0 wEnv (mkLoaded w) ∧ findingNames r0 wEnv w = ["CpuProfilePathNotCreatable"] := by decide
+example : let w := ⟨.scenario, "CpuProfilePath", .path "dir"⟩ :: wBase
+    accepts r0 w = true ∧ ¬ RunSafe r0 wEnv (mkLoaded w) ∧ findingNames r0 wEnv w = ["CpuProfilePathIsDirectory"] := by decide
+/-- a CPU profile in an existing directory is safe -/
+example : let w := ⟨.scenario, "CpuProfilePath", .path "prof"⟩ :: wBase
+    accepts r0 w = true ∧ RunSafe r0 wEnv (mkLoaded w) ∧ findingNames r0 wEnv w = [] := by decide
 
 /-- the full statement `accept_safe` is false -/
 example : ¬ ∀ (env : Env) (c : Cfg) (l : Loaded), load r0 c = .ok l → interpret r0 l = [] → RunSafe r0 env l := by
@@ -398,10 +437,22 @@ example : verdict rAll wModulo = .loadError [.mandatory ["ReportEvery"]] := by d
 example : verdict rAll wObjective = .interpretError [.objective] := by decide
 example : verdict rAll (⟨.scenario, "RunNumber", .int (-1)⟩ :: wBase) = .loadError [.mandatory ["RunNumber"]] := by decide
 example : verdict rAll (⟨.scenario, "OutputPath", .path "file"⟩ :: wBase) = .interpretError [.scenario] := by decide
+example : verdict rAll (⟨.scenario, "CpuProfilePath", .path "noprofdir"⟩ :: wBase) = .interpretError [.scenario] := by decide
+example : verdict rTree (⟨.scenario, "CpuProfilePath", .path "nested"⟩ :: wBase) = .interpretError [.scenario] := by decide
+/-- the run-number bound is 2^31 - 1 (the `sync.WaitGroup` counter): accepted up to it and safe, rejected above it,
+which includes every wrapped negative -/
+example : let w := ⟨.scenario, "RunNumber", .int 2147483647⟩ :: wBase
+    accepts rAll w = true ∧ RunSafe rAll wEnv (mkLoaded w) ∧ findingNames rAll wEnv w = [] := by decide
+example : verdict rAll (⟨.scenario, "RunNumber", .int 2147483648⟩ :: wBase) = .loadError [.mandatory ["RunNumber"]] := by decide
+example : verdict rAll (⟨.scenario, "RunNumber", .int (-9223372036854775808)⟩ :: wBase) = .loadError [.mandatory ["RunNumber"]] := by decide
+example : accepts r0 (⟨.scenario, "RunNumber", .int 2147483648⟩ :: wBase) = true := by decide
 example : accepts rAll wLoop = true ∧ RunSafe rAll wEnv (mkLoaded wLoop) := by decide
 example : let w := ⟨.scenario, "MaximumConcurrentRunNumber", .int (-1)⟩ :: wBase
     accepts rAll w = true ∧ RunSafe rAll wEnv (mkLoaded w) := by decide
-/-- the remaining findings stay: repairs do not touch them -/
+/-- the remaining findings stay: repairs do not touch them (a CPU profile path naming a directory is
+accepted with the directory check too) -/
+example : let w := ⟨.scenario, "CpuProfilePath", .path "dir"⟩ :: wBase
+    accepts rAll w = true ∧ ¬ RunSafe rAll wEnv (mkLoaded w) ∧ findingNames rAll wEnv w = ["CpuProfilePathIsDirectory"] := by decide
 example : accepts rAll wNull = true ∧ ¬ RunSafe rAll wEnv (mkLoaded wNull) := by decide
 example : accepts rAll wLimit = true ∧ findingNames rAll wEnv wLimit = ["LimitNeverBinds"] := by decide
 /-- with D17's repair the dumb model no longer answers to any name -/
